@@ -16,6 +16,11 @@ H1  the REAL writer (SimpleProcessTensor.export, or a file-backed PT-TEMPO run: 
           complete content (same symbols as written).
     In real mode (validation, replay) the writer runs on the REAL h5py in a forked child that
     is killed (flush + os._exit, no close) before operation k.
+      part 'exception': the second way a writer dies: file operation k (symbolic, after the file
+          creation) RAISES (disk-full OSError / KeyboardInterrupt / MemoryError) instead of being
+          performed; the exception unwinds through the real code's try/finally/except/with
+          handlers (a close() in a finally does run and takes effect), then the process ends;
+          re-opening must raise or warn unless the content is complete.
 H2  symbolic mode in {read, write, overwrite} x file exists/missing x filename given/None:
     'write' never replaces an existing file; remove() only for temporary / overwrite objects,
     never in read mode; untouched files keep their content.
@@ -38,6 +43,9 @@ from checks.c03 import build_pt
 from checks.c16 import Workspace, compare, concretise_frac, work_around_known_initial_tensor_defect, ENV
 
 ASSUMPTIONS = [
+    "fault model 2: a mutating file operation raises (OSError disk full / KeyboardInterrupt / MemoryError) instead of being "
+    "performed; the exception unwinds through the real code (handlers run and their file operations take effect); afterwards "
+    "the process ends and what is still open is flushed but not close()d by OQuPy",
     "crash model: a killed writer leaves exactly the effects of the file operations (create/truncate, attribute set, "
     "create_dataset, resize, item assignment) completed before the crash point and no close(); real partial writes, "
     "HDF5 metadata caching/journaling are outside the claim (a file that cannot be opened satisfies the property trivially)",
@@ -79,37 +87,56 @@ def close_quietly(obj):
             pass
 
 
-def run_writer(ws, writer, fn, crash_at):
-    """runs writer(fn) through an operation recorder.  -> (ops, crashed)
-    stand-in: in this process, the crash abandons the open handle;
-    real h5py: crash_at given -> forked child, flush + os._exit before operation crash_at."""
+def run_writer(ws, writer, fn, crash_at, fault=None):
+    """runs writer(fn) through an operation recorder.  -> (ops, outcome), outcome in
+    'completed' | 'killed' | 'raised'.
+    fault None : the writer is killed before operation crash_at (stand-in: the open handle is
+                 abandoned; real h5py: forked child, flush + os._exit, no close()).
+    fault name : operation crash_at raises that exception instead of being performed; it unwinds
+                 through the real code (handlers run, their file operations take effect); then the
+                 process ends: whatever is still open is abandoned (stand-in) / flushed and the
+                 child exits (real h5py; same as the HDF5-level close at interpreter exit)."""
+    factory = h5stub.FAULTS[fault] if fault else None
     if ws.real and crash_at is not None:
         import h5py
         pid = os.fork()
         if pid == 0:
             code = 3
             try:
-                rec = h5stub.OpRecorder(h5py, crash_at, h5stub.real_crash)
-                with patched({"oqupy.process_tensor.h5py": rec}):
-                    writer(fn)
-                code = 0
+                rec = h5stub.OpRecorder(h5py, crash_at, None if factory else h5stub.real_crash, fault=factory)
+                try:
+                    with patched({"oqupy.process_tensor.h5py": rec}):
+                        writer(fn)
+                    code = 0
+                except BaseException:  # noqa
+                    if factory and rec.fired:
+                        h5stub.flush_open(rec)
+                        code = 18
             except BaseException:  # noqa
                 code = 3
             finally:
                 os._exit(code)
         _, status = os.waitpid(pid, 0)
         code = os.waitstatus_to_exitcode(status)
-        if code not in (0, 17):
+        if code not in (0, 17, 18):
             raise RuntimeError("writer child process failed (exit code %s)" % code)
-        return None, code == 17
-    rec = h5stub.OpRecorder(ptm.h5py, crash_at, None if ws.real else h5stub.stub_crash)
-    crashed = False
+        return None, {0: "completed", 17: "killed", 18: "raised"}[code]
+    rec = h5stub.OpRecorder(ptm.h5py, crash_at, None if (ws.real or factory) else h5stub.stub_crash, fault=factory)
+    outcome = "completed"
     with patched({"oqupy.process_tensor.h5py": rec}):
         try:
             writer(fn)
         except h5stub.Crash:
-            crashed = True
-    return rec.ops, crashed
+            outcome = "killed"
+        except (sym.Abort, sym.Inconclusive, sym.SymbolicBranch, h5stub.StubLimit):
+            raise
+        except BaseException:  # noqa
+            if not (factory and rec.fired):
+                raise
+            outcome = "raised"
+    if factory and not ws.real:
+        h5stub.abandon_all()       # the process ends; nothing else happens to the file
+    return rec.ops, outcome
 
 
 def describe(ops, k):
@@ -128,9 +155,11 @@ class H1(Case):
     real_env = {}
     max_paths = 400
 
-    def __init__(self, part, seq, N, kind, rank=4, K=None):
-        self.part, self.seq, self.N, self.kind, self.rank, self.K = part, seq, N, kind, rank, K
+    def __init__(self, part, seq, N, kind, rank=4, K=None, exc="OSError"):
+        self.part, self.seq, self.N, self.kind, self.rank, self.K, self.exc = part, seq, N, kind, rank, K, exc
         self.id = "H1/%s/%s_N%d%s_%s" % (part, seq, N, "_r%d" % rank if seq == "export" else "_K%s" % K, kind)
+        if part == "exception":
+            self.id += "_" + exc
         self.bounds = {"sequence": seq, "N": N, "import_type": kind, "crash_points": "all in range of part '%s'" % part}
         self.timeout_s = 120
 
@@ -181,20 +210,24 @@ class H1(Case):
                 ref, full, again = self._export_writer(inp)
             else:
                 state, full, again = self._pt_tempo_writer(inp)
-            ops, crashed = run_writer(ws, full, ws.path("complete.hdf5"), None)
+            ops, outcome = run_writer(ws, full, ws.path("complete.hdf5"), None)
+            crashed = outcome != "completed"
             if self.seq != "export":
                 ref = state["mem"]
             if crashed or not ops or ops[-1][0] != "close":
                 raise RuntimeError("dry run of the writer did not end with close(): %r" % (ops[-3:],))
             L = len(ops)
             B = h5stub.reset_index(ops)
+            if self.part == "exception":
+                return concretise_frac(inp, self._run_exception(inp, ws, ops, ref, again))
             if self.part == "writing_flag":
                 k = inp.int("k", 0, B)
             else:
                 k = inp.int("k", B + 1, L)
             kc = int(k)                       # symbolic: one path per feasible crash point
             fn = ws.path("crashed.hdf5")
-            ops2, crashed = run_writer(ws, again, fn, kc)
+            ops2, outcome = run_writer(ws, again, fn, kc)
+            crashed = outcome == "killed"
             if crashed != (kc < L):
                 raise RuntimeError("crash run inconsistent with dry run (k=%d, L=%d, crashed=%s)" % (kc, L, crashed))
             if ops2 is not None and ops2 != ops[:kc]:
@@ -220,6 +253,50 @@ class H1(Case):
             finally:
                 close_quietly(res["obj"])
         return concretise_frac(inp, obs)
+
+
+def _run_exception(self, inp, ws, ops, ref, again):
+    """second way a writer dies: file operation k (symbolic, any mutating operation after the
+    creation of the file) raises; the exception unwinds through the real code, then the process
+    ends.  Re-opening must fail or warn unless the content is complete."""
+    N, L = self.N, len(ops)
+    k = inp.int("k", 1, L - 1)
+    kc = int(k)
+    fn = ws.path("died.hdf5")
+    ops2, outcome = run_writer(ws, again, fn, kc, fault=self.exc)
+    if ops2 is not None and ops2[:kc] != ops[:kc]:
+        raise RuntimeError("operation sequence of the fault run differs from the dry run before the fault")
+    res = read_back(fn, self.kind)
+    obs = []
+    try:
+        detected = res["raised"] is not None or res["corrupt_warning"]
+        opened = res["obj"] is not None
+        after = None if ops2 is None else ops2[kc:]
+        info = "operation %d of %d %r raised %s; writer %s; file operations performed while unwinding: %r; import_process_tensor(..., %r) %s, warnings=%r" % (
+            kc, L, ops[kc], self.exc, outcome, after, self.kind,
+            "raised %r" % (res["raised"],) if not opened else "returned an object of length %s" % _len(res["obj"]), res["warnings"])
+        obs.append(Ob.holds("writer died by an exception: re-opening fails, warns 'may be corrupt', or yields an object",
+                            detected or opened, info=info))
+        if not detected and opened:
+            # opened silently: allowed only with complete content
+            work_around_known_initial_tensor_defect(ref, res["obj"])
+            for o in compare("writer died by an exception, file opens silently: content complete", ref, res["obj"], N):
+                o.key = "silently_incomplete"
+                o.info = info
+                obs.append(o)
+    finally:
+        close_quietly(res["obj"])
+    return obs
+
+
+def _len(obj):
+    try:
+        return len(obj)
+    except Exception:  # noqa
+        return "?"
+
+
+H1._run_exception = _run_exception
 
 
 def _intact(tag, ws, fn, old, cond):
@@ -377,8 +454,13 @@ def cases(tier):
            H1("writing_flag", "pt_tempo", 2, "file", K=None),
            H1("clean", "export", 1, "simple", rank=4), H1("clean", "export", 2, "file", rank=3),
            H1("clean", "pt_tempo", 2, "simple", K=None), H1("clean", "pt_tempo", 2, "file", K=1)]
+    cs += [H1("exception", "export", 2, "file", rank=3, exc="OSError"), H1("exception", "export", 1, "simple", rank=4, exc="KeyboardInterrupt"),
+           H1("exception", "pt_tempo", 2, "file", K=None, exc="OSError")]
     cs += [H2(), H3()]
     if tier == "thorough":
+        cs += [H1("exception", "export", 3, "simple", rank=4, exc="MemoryError"), H1("exception", "export", 3, "file", rank=3, exc="KeyboardInterrupt"),
+               H1("exception", "export", 2, "simple", rank=4, exc="OSError"),
+               H1("exception", "pt_tempo", 3, "simple", K=1, exc="KeyboardInterrupt"), H1("exception", "pt_tempo", 2, "simple", K=1, exc="MemoryError")]
         cs += [H1("writing_flag", "export", 3, "file", rank=4), H1("writing_flag", "export", 3, "simple", rank=3),
                H1("writing_flag", "export", 2, "file", rank=3), H1("writing_flag", "export", 1, "simple", rank=4),
                H1("writing_flag", "pt_tempo", 3, "simple", K=None), H1("writing_flag", "pt_tempo", 3, "file", K=1),
